@@ -285,6 +285,11 @@ static int aggregateChain(KSI_CTX *ctx, KSI_LIST(KSI_HashChainLink) *chain, cons
 		}
 	}
 
+	/* A chain without links leaves its input as it is. */
+	if (hsh == NULL) {
+		hsh = KSI_DataHash_ref((KSI_DataHash *)inputHash);
+	}
+
 	KSI_snprintf(logMsg, sizeof(logMsg), "Finished %s hash chain aggregation with output hash.", isCalendar ? "calendar": "aggregation");
 	KSI_LOG_logDataHash(ctx, KSI_LOG_DEBUG, logMsg, hsh);
 
